@@ -92,3 +92,9 @@ package client
 //@   ensures sentlen: err == nil ==> len(lastsent()) == 48
 //@   ensures origin: err == nil && !c.InterleavedMode ==> echoes(lastpkt(), lastsent(), 40)
 //@   ensures origini: err == nil && c.InterleavedMode ==> echoes(lastpkt(), lastsent(), 40) || echoes(lastpkt(), lastsent(), 32)
+
+// ---- the CSPTP client: whatever datagrams arrive, the measurement returns a result or an error (no crash) ----
+//@ func (*CSPTPClientIP).MeasureClockOffset
+//@   noframe
+//@   requires c != nil && c.Log != nil
+//@   loop 0 invariant capof(buf) == 98 && offsetof(buf) == 0 && capof(oob) == 64 && offsetof(oob) == 0
